@@ -252,7 +252,12 @@ def insert(field, out, intensity=False, weight=1):
     #if indexing not in ('xy', 'ij'):
     #    raise ValueError("Valid values for `indexing` are 'xy' and 'ij'")
 
-    if field.shape == out.shape and np.array_equal(field.offset, [0, 0]):
+    if field.data.ndim == 0:
+        # a scalar field has no extent (it is the same everywhere, as it is
+        # when it is multiplied): it covers all of out
+        field_slice = Ellipsis
+        out_slice = Ellipsis
+    elif field.shape == out.shape and np.array_equal(field.offset, [0, 0]):
         field_slice = Ellipsis
         out_slice = Ellipsis
     else:
